@@ -402,6 +402,12 @@ impl Check for C03Pipeline {
             Res::Panic(m) => return CaseResult::Fail(format!("panic: {} args {:?}", m, a1)),
             other => return CaseResult::Fail(format!("a generated configuration was rejected: {} args {:?}", other.short(), a1)),
         }
+        let modelled = model(c);
+        if c.unique && matches!(&modelled, Model::Unspecified(m) if m.starts_with("equality")) {
+            // jawk's = and its hash disagree on these rows: what --unique keeps depends on the
+            // per-process hash seed, so not even two runs of jawk need to agree (outside C10's domain)
+            return CaseResult::Pass(Info::new(false).class("unique_outside_domain"));
+        }
         // independence from the order of the options
         let a2 = c.args(c.order_seed | 1);
         let o2 = run(&a2, &input);
@@ -443,7 +449,7 @@ impl Check for C03Pipeline {
         if crate::p04::order_sensitive(&all) {
             return CaseResult::Pass(classes(Info::new(false)).class("order_independent_only:member_order_observed"));
         }
-        let exp = match model(c) {
+        let exp = match modelled {
             Model::Unspecified(_) => return CaseResult::Pass(classes(Info::new(false)).class("order_independent_only:unspecified_expression")),
             Model::Rows(r) => r,
         };
